@@ -40,6 +40,9 @@ VALUE_NUMPY = {"cos", "sin", "tan", "arccos", "arcsin", "arctan", "arctan2", "sq
                "allclose", "mod", "fmod", "copysign", "hypot", "sum", "trace", "isnan", "isfinite", "isinf", "cbrt",
                "square", "power", "inner", "vdot", "float64", "round", "rint", "trunc", "maximum",
                "minimum", "clip", "any", "all", "ndim", "shape", "size", "isscalar", "array_equal"}
+NUMERIC_RESULT = {"cos", "sin", "tan", "arccos", "arcsin", "arctan", "arctan2", "sqrt", "cosh", "sinh", "tanh", "arccosh", "arcsinh",
+                  "arctanh", "exp", "log", "log10", "log2", "radians", "degrees", "deg2rad", "rad2deg", "cross", "dot", "norm", "det",
+                  "hypot", "cbrt", "square", "power", "acos", "asin", "atan", "atan2", "acosh", "asinh", "atanh"}
 VALUE_BUILTINS = {"abs", "bool", "divmod", "float", "int", "isinstance", "issubclass", "len", "max", "min", "pow", "round",
                   "str", "repr", "type", "getattr", "hasattr", "ord", "chr", "callable", "id", "format", "hex", "complex"}
 # non-mutating but allocating
@@ -226,6 +229,9 @@ class FuncGraph:
         self.tuples = {}
         self.probing = None
         self.consts = {}
+        self.nums = {}            # hash -> value of a numeric literal (or of a folded expression of literals)
+        self.prod = {}            # hash of a product -> its factors
+        self.numeric = set()      # hashes of values that are evidently numbers (literal, quotient, power, negation)
         self.bound = {}
         self._outside_cache = {}
         self.clsvns = set()
@@ -360,9 +366,15 @@ class FuncGraph:
         return m(n, st)
 
     def e_Constant(self, n, st):
-        v = self.h("const", type(n.value).__name__, repr(n.value))
-        if isinstance(n.value, str):
-            self.consts[v] = n.value
+        return self.const(n.value)
+
+    def const(self, value):
+        v = self.h("const", type(value).__name__, repr(value))
+        if isinstance(value, str):
+            self.consts[v] = value
+        elif isinstance(value, (int, float)) and not isinstance(value, bool):
+            self.nums[v] = value
+            self.numeric.add(v)
         return v
 
     def e_Name(self, n, st):
@@ -438,13 +450,64 @@ class FuncGraph:
     def e_Starred(self, n, st):
         return self.h("star", self.expr(n.value, st))
 
+    FOLD = {"Add": lambda a, b: a + b, "Sub": lambda a, b: a - b, "Mult": lambda a, b: a * b, "Div": lambda a, b: a / b,
+            "FloorDiv": lambda a, b: a // b, "Mod": lambda a, b: a % b, "Pow": lambda a, b: a ** b}
+
     def e_BinOp(self, n, st):
+        """Arithmetic is numbered operation by operation (a re-associated sum or a distributed product is another rounding
+        sequence) with four exceptions that cannot change a result by more than the order of exact operations: literals are
+        folded, `x ** 2` is `x * x`, a product is the multiset of its factors (`*` commutes for numbers, arrays and
+        sequence repetition; re-association of a product of floats moves the last bit at most), and `+` commutes when one
+        operand is evidently a number (a literal, a power, a call of a numpy / math function, sums and products of those:
+        nothing a timedelta, a Date, a string or a list can be)."""
         l = self.expr(n.left, st)
         r = self.expr(n.right, st)
-        return self.node(st, "bin", type(n.op).__name__, l, r)
+        return self.binop(st, type(n.op).__name__, l, r)
+
+    def binop(self, st, op, l, r):
+        if l in self.nums and r in self.nums and op in self.FOLD:
+            try:
+                v = self.FOLD[op](self.nums[l], self.nums[r])
+                if isinstance(v, (int, float)) and not isinstance(v, bool) and v == v and abs(v) != float("inf") and abs(v) < 1e300:
+                    return self.const(v)
+            except Exception:
+                pass
+        squared = False
+        if op == "Pow" and self.nums.get(r) == 2 and isinstance(self.nums.get(r), int):
+            op, r, squared = "Mult", l, True
+        if op == "Mult":
+            factors = list(self.prod.get(l, (l,))) + list(self.prod.get(r, (r,)))
+            k, rest = None, []
+            for f in factors:
+                if f in self.nums:
+                    k = self.nums[f] if k is None else k * self.nums[f]
+                else:
+                    rest.append(f)
+            if k is not None:
+                rest.append(self.const(k))
+            rest.sort()
+            v = self.node(st, "prod", *rest)
+            self.prod[v] = tuple(rest)
+            if squared or all(f in self.numeric for f in rest):
+                self.numeric.add(v)
+            return v
+        if op == "Add" and (l in self.numeric or r in self.numeric):
+            l, r = sorted((l, r))
+        v = self.node(st, "bin", op, l, r)
+        # evidently a number (or an array of numbers): what cannot be a timedelta, a Date, a string or a list —
+        # a power, a sum or difference with a number, a number divided by something
+        if op == "Pow" or (op in ("Add", "Sub") and (l in self.numeric or r in self.numeric)) or (op in ("Div", "FloorDiv", "Mod") and l in self.numeric):
+            self.numeric.add(v)
+        return v
 
     def e_UnaryOp(self, n, st):
-        return self.node(st, "un", type(n.op).__name__, self.expr(n.operand, st))
+        o = self.expr(n.operand, st)
+        if o in self.nums and isinstance(n.op, (ast.USub, ast.UAdd)):
+            return self.const(-self.nums[o] if isinstance(n.op, ast.USub) else self.nums[o])
+        v = self.node(st, "un", type(n.op).__name__, o)
+        if isinstance(n.op, (ast.USub, ast.UAdd)) and o in self.numeric:
+            self.numeric.add(v)
+        return v
 
     def e_BoolOp(self, n, st):
         # value of `a and b` = b if a else a ; `a or b` = a if a else b   (a evaluated once)
@@ -491,6 +554,9 @@ class FuncGraph:
         for op, c in zip(n.ops, n.comparators):
             parts.append(type(op).__name__)
             parts.append(self.expr(c, st))
+        if len(parts) == 3 and parts[1] in ("Gt", "GtE"):
+            # `a >= b` is `b <= a` (operands evaluated in source order above; reflected comparisons agree)
+            parts = [parts[2], {"Gt": "Lt", "GtE": "LtE"}[parts[1]], parts[0]]
         return self.node(st, "cmp", *parts)
 
     def e_IfExp(self, n, st):
@@ -760,6 +826,8 @@ class FuncGraph:
         kwvals = [v for _, v in kws]
         skws = sorted(((k or "**"), v) for k, v in kws)
         callvn = self.node(st, "call", f, *argv, *(f"{k}={v}" for k, v in skws), "kw", *[v for _, v in skws], identity=(cls != "value"), heap_read=(cls == "impure"))
+        if cls == "value" and f.startswith(("G:numpy.", "G:math.")) and f.rsplit(".", 1)[-1] in NUMERIC_RESULT:
+            self.numeric.add(callvn)
         if cls == "impure":
             self.effect(st, "call", callvn)
             self.touch(st, recv, *argv, *kwvals)
@@ -1072,7 +1140,7 @@ class FuncGraph:
             v = self.expr(s.value, st)
             if self.immutable(cur):
                 # an int / float / str / bool cannot be changed in place: `x op= y` is `x = x op y`
-                st.env[t.id] = self.node(st, "bin", type(s.op).__name__, cur, v)
+                st.env[t.id] = self.binop(st, type(s.op).__name__, cur, v)
                 return
             r = self.node(st, "iop", type(s.op).__name__, cur, v)
             self.effect(st, "inplace", r)
@@ -1119,6 +1187,8 @@ class FuncGraph:
                 return True
             if key and key[0] == "bin" and key[1] in ("Add", "Sub", "Mult", "FloorDiv", "Mod", "Pow", "Div"):
                 return self.immutable(key[2]) and self.immutable(key[3])
+            if key and key[0] == "prod":
+                return all(self.immutable(f) for f in key[1:key.index("|")] ) if "|" in key else False
         return False
 
     def s_Return(self, s, st, loop):
